@@ -88,7 +88,8 @@ class Builder(object):
             return n
         if k == 'return':
             se = strip_bool(s.e) if s.e is not None else None
-            if se is not None and se.k == 'bin' and se.op in ('&&', '||'):
+            if se is not None and ((se.k == 'bin' and se.op in ('&&', '||', '==', '!=', '<', '>', '<=', '>=')) or
+                                   (se.k == 'un' and se.op == '!')):
                 # return a && b;  ==  if(a && b) return 1; else return 0;   (exposes the atoms as edges)
                 one = g.new('ret', e=E('int', val=1, t='int', file=s.file, line=s.line), file=s.file, line=s.line, stmt=s)
                 zero = g.new('ret', e=E('int', val=0, t='int', file=s.file, line=s.line), file=s.file, line=s.line, stmt=s)
